@@ -49,11 +49,10 @@ Rich == {A, S, LongString("ls"), Int("1"), Float("1.5"), RTime("2s"), Bool(TRUE)
          String(""), String("a b"), LongString(""),
          \* comment markers, braces and a line break inside strings; negative float / RTIME
          String("http://x/#y /* z */"), LongString("a\nb } {"), LongStringD("{\"x\"}", "Q"), Prefix("-", Float("1.5")), Prefix("-", RTime("2s"))}
-\* quick: every atom on either side of every operator, beside three partners; thorough: every pair of atoms
-Partners == {A, S, Int("1")}
-R1 == IF Full THEN {Bin(o, l, r) : o \in BinOps, l \in Rich, r \in Rich}
-      ELSE {Bin(o, x, p) : o \in BinOps, x \in Rich, p \in Partners} \cup {Bin(o, p, x) : o \in BinOps, x \in Rich, p \in Partners}
-
+\* every atom on either side of every operator, beside three (quick) / eight (thorough) partners of different kinds
+\* (all 48 x 48 pairs cost TLC's single-threaded set construction more than ten minutes and add little)
+Partners == IF Full THEN {A, S, Int("1"), LongString("ls"), CallX("f", <<>>), IfX(A, S, B), Group(A), Not(A)} ELSE {A, S, Int("1")}
+R1 == {Bin(o, x, p) : o \in BinOps, x \in Rich, p \in Partners} \cup {Bin(o, p, x) : o \in BinOps, x \in Rich, p \in Partners}
 ExprCtx(e, ctx) ==
   IF ctx = "set" THEN SubD("s", <<>>, None, Block(<<SetS("req.http.R", "=", e)>>))
   ELSE SubD("s", <<>>, None, Block(<<IfS(e, Block(<<Simple("esi")>>), <<>>, None)>>))
